@@ -14,6 +14,7 @@ WORK = os.path.join(CACHE, "work")
 SPEC_DIR = os.path.join(VERIF, "spec")
 WIT_BYTES = 40  # bytes of each fresh buffer that are pinned to trace-visible ghosts (counterexample extraction only)
 
+DEFAULT_UNWIND = 24
 CHECK_FLAGS = ["--bounds-check", "--pointer-check", "--signed-overflow-check", "--undefined-shift-check", "--div-by-zero-check"]
 
 # ---------------------------------------------------------------------------
@@ -27,8 +28,9 @@ class Pre:
 class BUF(Pre):
     """`ptr` points to the first byte of a fresh object of exactly `length` bytes"""
 
-    def __init__(self, ptr, length, cast="char *"):
-        self.ptr, self.length, self.cast = ptr, length, cast
+    def __init__(self, ptr, length, cast="char *", pins=()):
+        # pins: extra index expressions (over ghosts) whose bytes are made visible in counterexamples besides the first WIT_BYTES bytes
+        self.ptr, self.length, self.cast, self.pins = ptr, length, cast, list(pins)
 
 
 class OBJ(Pre):
@@ -140,6 +142,8 @@ def clauses(c, for_replace=False):
                 wit_k[0] += 1
                 conj = " && ".join("((%s) <= %d || ((char *)(%s))[%d] == sbv_w%d[%d])" % (it.length, i, it.ptr, i, k, i) for i in range(WIT_BYTES))
                 out.append("__CPROVER_requires(%s)" % conj)
+                for j, px in enumerate(it.pins):
+                    out.append("__CPROVER_requires((%s) >= (%s) || ((char *)(%s))[%s] == sbv_pin%d_%d)" % (px, it.length, it.ptr, px, k, j))
         elif isinstance(it, OBJ):
             out.append("__CPROVER_requires(__CPROVER_is_fresh(%s, sizeof(*(%s))))" % (it.ptr, it.ptr))
             if not for_replace:
@@ -219,11 +223,15 @@ def emit_c(c, path, canary=None):
 
     body = re.sub(r"/\*@CONTRACT (\w+)@\*/", sub_contract, body)
 
+    c.loops_applied = []
+
     def sub_loop(m):
-        # loop contracts: key k = k-th loop of the function under contract, key (mangled, k) = k-th loop of a callee (e.g. a libstdc++ algorithm)
+        # loop contracts: key k = k-th loop of the function under contract, key (mangled, k) = k-th loop of a callee (e.g. a libstdc++ algorithm
+        # or another member function whose loop this operation may reach)
         key = int(m.group(2)) if m.group(1) == c.fn.mangled and int(m.group(2)) in c.loops else (m.group(1), int(m.group(2)))
         if key in c.loops:
             L = c.loops[key]
+            c.loops_applied.append(key)
             s = "__CPROVER_assigns(%s)\n" % "; ".join(list(L.assigns) + ["sbv_steps"]) if L.assigns is not None else ""
             for inv in L.invariants:
                 s += "__CPROVER_loop_invariant(%s)\n" % inv
@@ -238,6 +246,9 @@ def emit_c(c, path, canary=None):
     nbuf = sum(1 for it in c.pre if isinstance(it, BUF))
     for k in range(nbuf):
         pre.append("char sbv_w%d[%d];" % (k, WIT_BYTES))
+    for k, it in enumerate([x for x in c.pre if isinstance(x, BUF)]):
+        for j in range(len(it.pins)):
+            pre.append("char sbv_pin%d_%d;" % (k, j))
     for it in c.pre:
         if isinstance(it, OBJ):
             for pth, ct in u.scalar_leaves(it.rec):
@@ -347,6 +358,9 @@ def harness_main(c):
     for k in range(nbuf):
         for i in range(WIT_BYTES):
             L.append("  { char t; sbv_w%d[%d] = t; }" % (k, i))
+    for k, it in enumerate([x for x in c.pre if isinstance(x, BUF)]):
+        for j in range(len(it.pins)):
+            L.append("  { char t; sbv_pin%d_%d = t; }" % (k, j))
     for it in c.pre:
         if isinstance(it, OBJ):
             for pth, ct in u.scalar_leaves(it.rec):
@@ -409,15 +423,16 @@ def run_contract(c, tier="quick", keep=False):
         cmd = ["goto-instrument", "--dfcc", "main", "--enforce-contract", c.fn.mangled]
         for m in r.replaced:
             cmd += ["--replace-call-with-contract", m]
-        if c.loops:
+        if getattr(c, "loops_applied", None):
             cmd += ["--apply-loop-contracts"]
         cmd += [os.path.join(wd, "a.gb"), os.path.join(wd, "b.gb")]
         p = sh(cmd, check=False, timeout=600)
         if p.returncode != 0:
             raise ToolError("goto-instrument --dfcc failed for %s:\n%s" % (c.ident(), p.stdout[-3000:]))
         flags = list(CHECK_FLAGS) + list(c.extra_flags)
-        if c.unwind:
-            flags += ["--unwind", str(c.unwind), "--unwinding-assertions"]
+        # every loop is closed by a loop contract, by complete unwinding of a constant trip count, or by a stated bound; the default bound is
+        # only a guard against loops that a changed tree introduces (an unwinding assertion failing alone means "undecided", see classify)
+        flags += ["--unwind", str(c.unwind or DEFAULT_UNWIND), "--unwinding-assertions"]
         flags += ["--object-bits", str(c.objbits or 10)]
         last = ""
         order = BACKENDS if not c.backends else sorted(BACKENDS, key=lambda b: (c.backends.index(b[0]) if b[0] in c.backends else 99))
@@ -550,11 +565,16 @@ def classify(r):
         r.status = "undecided"
         r.detail = "ensures clauses without obligation: %s" % missing
         return
-    if c.loops and not any("loop invariant" in p["desc"].lower() or "loop_invariant" in p["name"] for p in real):
+    if getattr(c, "loops_applied", None) and not any("loop invariant" in p["desc"].lower() or "loop_invariant" in p["name"] for p in real):
         r.status = "undecided"
         r.detail = "loop contract was not applied (no loop invariant obligations)"
         return
     bad = [p for p in real if p["status"] == "FAILURE"]
+    if bad and not c.unwind and all("unwinding assertion" in p["desc"] for p in bad):
+        # a loop without loop contract that the unchanged tree does not have here: nothing is decided about the property
+        r.status = "undecided"
+        r.detail = "unexpected loop (no loop contract, default unwinding bound %d exceeded): %s" % (DEFAULT_UNWIND, [p["name"] for p in bad][:3])
+        return
     if bad:
         r.status = "failed"  # properties CBMC reports UNKNOWN are those behind a failed one (assert-then-assume cascade)
         return
@@ -603,7 +623,7 @@ def witness_from_trace(trace):
             continue
         if not re.match(r"(a\d+($|[.\[])|sbv_)", lhs):
             continue
-        _flatten(lhs, st.get("value"), vals)
+        _flatten(re.sub(r"\[(\d+)[a-z]+\]", r"[\1]", lhs), st.get("value"), vals)  # CBMC prints array indices as '[0l]'
     return vals
 
 
@@ -666,6 +686,8 @@ def build_replay(c, vals, path):
     for it in c.pre:
         if isinstance(it, BUF):
             L.append("char sbv_w%d[%d];" % (nbuf, WIT_BYTES))
+            for j in range(len(it.pins)):
+                L.append("char sbv_pin%d_%d;" % (nbuf, j))
             nbuf += 1
     for ct, g in c.ghosts:
         L.append("%s %s;" % (ct, g))
@@ -682,6 +704,9 @@ def build_replay(c, vals, path):
     for k in range(nbuf):
         for i in range(WIT_BYTES):
             L.append("  sbv_w%d[%d] = %s;" % (k, i, val("sbv_w%d[%d]" % (k, i), "char")))
+    for kk, it in enumerate([x for x in c.pre if isinstance(x, BUF)]):
+        for j in range(len(it.pins)):
+            L.append("  sbv_pin%d_%d = %s;" % (kk, j, val("sbv_pin%d_%d" % (kk, j), "char")))
     for i, p in enumerate(params):
         ct = p["ctype"].strip()
         if ct.endswith("*"):
@@ -696,7 +721,7 @@ def build_replay(c, vals, path):
         if isinstance(it, BUF):
             L.append("  { size_t n_ = (size_t)(%s); if(n_ > (1UL<<26)) { printf(\"REPLAY-SKIP buffer too large\\n\"); return 3; } char* b_ = malloc(n_ ? n_ : 1); if(!n_) { b_ = (char*)realloc(b_, 1); } "
                      "for(size_t i_ = 0; i_ < n_; i_++) b_[i_] = i_ < %d ? sbv_w%d[i_] : 0; "
-                     "if(!n_) { free(b_); b_ = malloc(0); } %s = (%s)b_; }" % (it.length, WIT_BYTES, k, it.ptr, it.cast))
+                     "%s if(!n_) { free(b_); b_ = malloc(0); } %s = (%s)b_; }" % (it.length, WIT_BYTES, k, " ".join("if((size_t)(%s) < n_) b_[%s] = sbv_pin%d_%d;" % (px, px, k, j) for j, px in enumerate(it.pins)), it.ptr, it.cast))
             k += 1
         elif isinstance(it, OBJ):
             L.append("  %s = calloc(1, sizeof(*(%s)));" % (it.ptr, it.ptr))
